@@ -225,8 +225,13 @@ impl MappingInfo {
         // aligned word in the target process.
         let low_addr = self.system_mapping_info.start_address;
         let high_addr = self.system_mapping_info.end_address;
-        let mut offset = (sp_offset + size_of::<usize>() - 1) & !(size_of::<usize>() - 1);
-        while offset <= stack_copy.len() - size_of::<usize>() {
+        // A copy shorter than a word cannot hold a pointer.
+        let Some(last_word_offset) = stack_copy.len().checked_sub(size_of::<usize>()) else {
+            return false;
+        };
+        let mut offset =
+            sp_offset.saturating_add(size_of::<usize>() - 1) & !(size_of::<usize>() - 1);
+        while offset <= last_word_offset {
             let addr = match std::mem::size_of::<usize>() {
                 4 => stack_copy[offset..]
                     .as_ref()
